@@ -49,4 +49,124 @@ structure ExitPkg where
   usedWrites : Nat
   deriving Repr
 
+/-- atoms of the wrapper functions of `minify.go` (C12): `Reader`, `Writer`, `writer.Close`,
+    `responseWriter.Write/Close/WriteHeader`, `ResponseWriter`, `Middleware*`, `Bytes`, `String` -/
+inductive WAtom
+  /-- `pr, pw := io.Pipe()` -/
+  | pipeNew
+  /-- `z := &writer{pw, sync.WaitGroup{}, false, nil}` -/
+  | mkWriter
+  /-- `z.wg.Add(1)` -/
+  | wgAdd
+  /-- `go func() {` … `}()`: the atoms between `goBegin` and `goEnd` are the goroutine's body -/
+  | goBegin
+  | goEnd
+  /-- `defer z.wg.Done()` / `z.wg.Done()` -/
+  | deferWgDone
+  | wgDone
+  /-- `defer pr.Close()` / `pr.Close()` -/
+  | deferPipeReaderClose
+  | pipeReaderClose
+  /-- `err := <minify>(…, dst, src, …)` as the init of an `if … err != nil`: `dst` ∈ {`w` the caller's
+      writer, `pw` the pipe writer, `rw` the wrapped `http.ResponseWriter`}, `src` ∈ {`pr` the pipe
+      reader, `r` the caller's reader} -/
+  | callMinify (dst src : String)
+  /-- `… { z.err = err }` (body of that `if`, no else) -/
+  | storeErr
+  /-- `… { pw.CloseWithError(err) } else { pw.Close() }` -/
+  | closeWithErrorElseClose
+  /-- `return z` -/
+  | returnWriter
+  /-- `return pr` -/
+  | returnPipeReader
+  /-- `if z.closed { return nil }` -/
+  | returnNilIfClosed
+  /-- `z.closed = true` -/
+  | setClosed
+  /-- `err := z.WriteCloser.Close()` (closes the pipe writer) -/
+  | pipeWriterClose
+  /-- `z.wg.Wait()` -/
+  | wgWait
+  /-- `if z.err == nil { return err }; return z.err` -/
+  | returnStoredOrCloseErr
+  /-- `if w.z == nil {` … `}` (first write of the response writer) -/
+  | firstWriteBegin
+  | firstWriteEnd
+  /-- `if mediatype := w.ResponseWriter.Header().Get("Content-Type"); mediatype != "" { w.mediatype = mediatype }` -/
+  | pickContentType
+  /-- `if _, params, minifier := w.m.Match(w.mediatype); minifier != nil {` … `} else {` … `}` -/
+  | matchBegin
+  | matchElse
+  | matchEnd
+  /-- `w.z = z` -/
+  | setZWriter
+  /-- `w.z = w.ResponseWriter` -/
+  | setZPassthrough
+  /-- `return w.z.Write(b)` -/
+  | returnZWrite
+  /-- `if closer, ok := w.z.(interface{ Close() error }); ok { return closer.Close() }` -/
+  | closeIfCloser
+  /-- `return nil` -/
+  | returnNil
+  /-- `w.ResponseWriter.Header().Del("Content-Length")` -/
+  | delContentLength
+  /-- `w.ResponseWriter.WriteHeader(status)` -/
+  | forwardWriteHeader
+  /-- `mediatype := mime.TypeByExtension(path.Ext(r.RequestURI))` -/
+  | mediatypeFromExt
+  /-- `return &responseWriter{w, nil, m, mediatype}` -/
+  | returnResponseWriter
+  /-- `mw := m.ResponseWriter(w, r)` -/
+  | mkResponseWriter
+  /-- `next.ServeHTTP(mw, r)` -/
+  | serveNext
+  /-- `mw.Close()` -/
+  | closeMw
+  /-- `if err := mw.Close(); err != nil { errorFunc(w, r, err); return }` -/
+  | closeMwReportErr
+  /-- `return http.HandlerFunc(func(w, r) {` … `})` -/
+  | handlerBegin
+  | handlerEnd
+  /-- `out := buffer.NewWriter(make([]byte, 0, len(v)))` -/
+  | newOutBuffer
+  /-- `if err := m.Minify(mediatype, out, buffer.NewReader(<v>)); err != nil { return v, err }`;
+      `copied`: the reader is over `parse.Copy(v)` / `[]byte(v)` rather than `v` itself -/
+  | minifyBufOrReturnInput (copied : Bool)
+  /-- `return out.Bytes(), nil` / `return string(out.Bytes()), nil` -/
+  | returnOut
+  /-- anything the translator did not recognise (source text) -/
+  | other (src : String)
+  deriving DecidableEq, Repr
+
+/-- the regenerated skeletons of `minify.go` -/
+structure WSkel where
+  reader : List WAtom
+  writer : List WAtom
+  writerClose : List WAtom
+  rwWriteHeader : List WAtom
+  rwWrite : List WAtom
+  rwClose : List WAtom
+  responseWriter : List WAtom
+  middleware : List WAtom
+  middlewareWithError : List WAtom
+  bytes : List WAtom
+  string : List WAtom
+  deriving DecidableEq, Repr
+
+/-- how a function uses its `io.Reader` parameter -/
+inductive RUse
+  /-- as the argument of `parse.NewInput(r)` -/
+  | newInput
+  /-- passed unchanged as the reader argument of a call whose result is returned directly -/
+  | passOnReturn
+  /-- passed unchanged to another call -/
+  | passOn
+  | other (src : String)
+  deriving DecidableEq, Repr
+
+structure InputUse where
+  func : String
+  uses : List RUse
+  deriving DecidableEq, Repr
+
 end Verif.Skel
